@@ -16,7 +16,7 @@ From Coq Require Import List NArith ZArith Bool.
 From KV Require Import Lib.Bits Lib.Bytes Lib.Crc Spec.RecordFormat Model.Records
   Proofs.RecordsCodec Proofs.RecordsSet Proofs.RecordsWriters Proofs.RecordsLegacy
   Proofs.RecordsReaders Proofs.RecordsConn Proofs.RecordsFetch Proofs.RecordsV1
-  Proofs.RecordsReadersV1 Model.Pages Proofs.PagesProofs Proofs.PagesReadFrom.
+  Proofs.RecordsReadersV1 Model.Pages Proofs.PagesProofs Proofs.PagesReadFrom Proofs.PagesWriteAt.
 Import ListNotations.
 Open Scope Z_scope.
 
@@ -234,6 +234,24 @@ Theorem C05_pages_read_from_total : forall fuel s b l data,
   exists s', pb_read_from fuel s b data [] = Some s'.
 Proof. exact pb_read_from_total. Qed.
 Print Assumptions C05_pages_read_from_total.
+
+(* pageBuffer.WriteAt (the back-patching of placeholders: contiguousPages.WriteAt walking the
+   pages of the range, every page taking the bytes that fall into it): for EVERY offset and
+   length inside the buffer — within one page, ending on or starting on a page boundary,
+   spanning two, three or more pages — the content afterwards is the content with exactly the
+   range [off, off+len) replaced by the data; page lengths, reference counts, pool flags, the
+   buffers' page lists and every page of other buffers are unchanged, and the invariant holds.
+   (A range reaching beyond the end of the buffer is outside the model: pb_write_at = None.) *)
+Theorem C05_pages_write_at : forall s b l off data s',
+  Inv s -> buf_ok s b l -> pb_write_at s b off data = Some s' ->
+  Inv s' /\ buf_ok s' b l /\
+  buf_content s' b = firstn off (buf_content s b) ++ data ++ skipn (off + length data) (buf_content s b) /\
+  (forall q, length (p_data (get_page s' q)) = length (p_data (get_page s q)) /\
+             p_refc (get_page s' q) = p_refc (get_page s q) /\ p_pool (get_page s' q) = p_pool (get_page s q)) /\
+  (forall q, ~ In q l -> get_page s' q = get_page s q) /\
+  s_bufs s' = s_bufs s /\ s_refs s' = s_refs s.
+Proof. exact pb_write_at_spec. Qed.
+Print Assumptions C05_pages_write_at.
 Open Scope Z_scope.
 
 (* ---- non-vacuity: concrete instances meeting the hypotheses ---- *)
@@ -285,6 +303,21 @@ Example C05_nonvacuous_read_from :
     | Some s2 =>
       (if list_eq_dec N.eq_dec (skipn k (buf_content s2 0)) data then true else false) &&
       (if list_eq_dec Nat.eq_dec (map (fun p => length (p_data p)) (s_pages s2)) [256 * 256; 7] then true else false)
+    | None => false
+    end
+  | None => false
+  end = true.
+Proof. vm_compute. reflexivity. Qed.
+
+(* a 4-byte field written across the boundary between the first and the second page *)
+Example C05_nonvacuous_write_at :
+  let ops := [ONewBuf; ONewPage 0 None; OAppend 0 (repeat 7%N (256 * 256)); ONewPage 0 None; OAppend 0 (repeat 8%N 10)] in
+  match run s0 ops with
+  | Some s1 =>
+    match pb_write_at s1 0 (256 * 256 - 3) [1; 2; 3; 4]%N with
+    | Some s2 =>
+      (if list_eq_dec N.eq_dec (firstn 8 (skipn (256 * 256 - 5) (buf_content s2 0))) [7; 7; 1; 2; 3; 4; 8; 8]%N then true else false) &&
+      (if list_eq_dec Nat.eq_dec (map (fun p => length (p_data p)) (s_pages s2)) [256 * 256; 10] then true else false)
     | None => false
     end
   | None => false
